@@ -49,9 +49,19 @@ def history_of_index(ln, idx):
     return out
 
 
+def real_level():
+    """the console handler's level read straight from the logging module (not through emd.logger.get_level)"""
+    import logging
+    for h in logging.getLogger('emd').handlers:
+        if h.get_name() == 'console':
+            return int(h.level)
+    return -1
+
+
 def run_history_here(codes, workdir, variant='sift'):
     """Executed inside a freshly forked child: returns the observation trace."""
     import emd
+    reals = []
     ref = reference()
     x = signal()
     bad = np.zeros((8, 2, 3))
@@ -84,7 +94,8 @@ def run_history_here(codes, workdir, variant='sift'):
                 seen = 3
         lv = emd.logger.get_level()
         tr += [-1 if lv is None else int(lv), seen]
-    return tr
+        reals.append(real_level())
+    return tr, reals
 
 
 def forked(codes, workdir, variant='sift'):
@@ -97,9 +108,9 @@ def forked(codes, workdir, variant='sift'):
             os.dup2(dn, 1)
             os.dup2(dn, 2)
             try:
-                tr = run_history_here(codes, workdir, variant)
+                tr = list(run_history_here(codes, workdir, variant))
             except BaseException as e:  # noqa
-                tr = [-99, common.exc_code(e)]
+                tr = [[-99, common.exc_code(e)], []]
             os.write(w, json.dumps(tr).encode())
         finally:
             os._exit(0)
@@ -112,17 +123,23 @@ def forked(codes, workdir, variant='sift'):
         data += chunk
     os.close(r)
     os.waitpid(pid, 0)
-    return json.loads(data.decode()) if data else [-98]
+    return tuple(json.loads(data.decode())) if data else ([-98], [])
 
 
-def oracle(codes, tr):
-    """The property itself, on the implementation's trace."""
+def oracle(codes, tr, reals=None):
+    """The property itself, on the implementation's trace.  reals: the console handler's level after every step, read from the
+    logging module itself - the levels the property talks about; get_level() must report exactly them"""
     fails = []
     if tr[:1] in ([-99], [-98]):
         return [('history', 'history could not be executed: %s' % tr)]
     prev = -1
     for n, (kind, a, b) in enumerate(codes):
         lv, seen = tr[2 * n], tr[2 * n + 1]
+        if reals:
+            if lv != reals[n]:
+                fails.append(('get_level', 'after step %d (%s) get_level() reports %s but the console handler of the emd logger is at %s'
+                              % (n, [kind, a, b], lv, reals[n])))
+            lv = reals[n]
         if kind == 4:
             what = 'sift(verbose=%s) made to %s' % (NAMES.get(a), 'raise' if b else 'return')
             if lv != prev:
@@ -147,9 +164,9 @@ def _worker(job):
     outs, fails = [], []
     for idx in range(start, start + n):
         codes = history_of_index(ln, idx)
-        tr = forked(codes, _W['work'])
+        tr, reals = forked(codes, _W['work'])
         outs.append(tr)
-        f = oracle(codes, tr)
+        f = oracle(codes, tr, reals)
         if f:
             fails.append((codes, f[:2], tr))
     return ln, start, n, common.block_hash(outs), fails[:3]
@@ -160,7 +177,7 @@ def run(ctx):
     ctx.rule = ('every history of length 1..%d over a 23-op alphabet {set_up(level in None/CRITICAL/WARNING/INFO/DEBUG, with/without '
                 'log file), set_level x4, disable, enable, sift(verbose in None+4 levels) returning / raising}, each in a freshly '
                 'forked never-set-up process (so both the never-set-up and the set-up state are starting points); plus random '
-                'histories up to length 12 incl. mask_sift; observed: get_level() and call outcome after every step; '
+                'histories up to length 12 incl. mask_sift; observed: get_level(), the level of the console handler read from the logging module itself, and the call outcome after every step; '
                 'non-trivial = contains a call with a verbosity override' % depth)
     ctx.proof(extra=['props/Prop_Tie_Logger.v', 'props/Prop_Tie_Misc.v'])  # translation tie: program regenerated from the source + refinement theorems
     reference()
@@ -203,10 +220,10 @@ def run(ctx):
         rcases.append(([ctx.rng.choice(ALPHABET) for _ in range(ln)], 'mask_sift' if i % 4 == 0 else 'sift'))
     mo = ctx.model_outputs(IMPORTS, [zlistlist(c) for c, _ in rcases], 'run_trace', shard=100)
     for (codes, variant), m in zip(rcases, mo):
-        tr = forked(codes, ctx.work, variant)
+        tr, reals = forked(codes, ctx.work, variant)
         ctx.count(codes, any(k == 4 and a for k, a, b in codes), 'random-' + variant)
         ctx.exact_cmp += 1
-        f = oracle(codes, tr)
+        f = oracle(codes, tr, reals)
         for site, detail in f[:1]:
             ctx.problem('impl-violation', site, detail, input=dict(history=codes, variant=variant), observed=tr)
         if tr != m and not f and not bad:
@@ -224,7 +241,7 @@ def run(ctx):
             mh = ctx.model_index_hashes(IMPORTS, fexpr, s, n)
             for k in range(n):
                 codes = history_of_index(ln, s + k)
-                tr = forked(codes, ctx.work)
+                tr, _ = forked(codes, ctx.work)
                 if common.hashL(tr) != mh[k]:
                     ctx.problem('correspondence-break', 'run_trace', 'model and implementation traces differ',
                                 input=dict(history=codes), observed=tr,
@@ -235,8 +252,8 @@ def run(ctx):
 def replay(rec):
     codes = rec['input']['history']
     os.makedirs(os.path.join(common.VERIF, '.work', 'replay'), exist_ok=True)
-    tr = forked(codes, os.path.join(common.VERIF, '.work', 'replay'), rec['input'].get('variant', 'sift'))
-    f = oracle(codes, tr)
+    tr, reals = forked(codes, os.path.join(common.VERIF, '.work', 'replay'), rec['input'].get('variant', 'sift'))
+    f = oracle(codes, tr, reals)
     for x in f:
         print(x)
     return bool(f)
